@@ -78,7 +78,14 @@ GEN = ("histories = corpus (witnesses of G2, G3, G4 + ordinary reconfigurations 
        "in a second goroutine and is parked on gme.mu inside UpdateMultiEndpoints (goroutine stacks) or has returned when the "
        "dial is released; the pair must take effect as update 1 then update 2 (dial logs attributed per goroutine); "
        "after every event: routes of pickConn for the contexts (none, '', me1..me4, me9), tables of every MultiEndpoint, "
-       "pool table, dial log, open connections, census of monitor goroutines; RecoveryTimeout = SwitchingDelay = 0; "
+       "pool table, dial log, open connections, census of monitor goroutines; in all of the above RecoveryTimeout = "
+       "SwitchingDelay = 0; VERIF_TIMED further histories are TIMED: RecoveryTimeout / SwitchingDelay of every MultiEndpoint "
+       "from {0,5,10,20}, the clock and timer factory of package multiendpoint replaced (overlay file harness/gme_me/"
+       "zz_verif_clock.go) by a virtual clock and timers that fire only when the history says so (TA dt, TB name k, TE name k "
+       "= the model's GTick name OpAdvance/OpBegin/OpEnd; every timer is attributed to its MultiEndpoint through the lock its "
+       "creator holds / the endpoint referring to it), generated online from the implementation's timer table: live servers "
+       "up/down one at a time, updates that remove endpoints/MultiEndpoints or add down endpoints/new MultiEndpoints, clock "
+       "advances to the next due time or by small steps, due timers fired in any order with Begin/End split, RPCs; "
        "distinct by hash of the operation list; ")
 
 
@@ -95,18 +102,26 @@ class GMEEngine(engines.HistEngine):
     props = {
         "C15": dict(monitor="c15",
                     rel={"route", "pools", "dial", "mes", "default", "call", "open", "census", "badop"},
-                    quick=dict(VERIF_N="700", VERIF_MAXOPS="10", VERIF_LIVE="20", VERIF_FLAP="60", VERIF_CONC="60", VERIF_READY="40"),
-                    thorough=dict(VERIF_N="30000", VERIF_MAXOPS="16", VERIF_LIVE="25", VERIF_FLAP="1500", VERIF_CONC="1500", VERIF_READY="1000"),
+                    quick=dict(VERIF_N="700", VERIF_MAXOPS="10", VERIF_LIVE="20", VERIF_FLAP="60", VERIF_CONC="60", VERIF_READY="40", VERIF_TIMED="60"),
+                    thorough=dict(VERIF_N="30000", VERIF_MAXOPS="16", VERIF_LIVE="25", VERIF_FLAP="1500", VERIF_CONC="1500", VERIF_READY="1000", VERIF_TIMED="1500", VERIF_TMAXOPS="20"),
                     nontrivial=gme_nontrivial_c15,
                     rule=GEN + "non-trivial = at least two accepted configurations, or one plus a connectivity change / RPC"),
         "C16": dict(monitor="c16",
                     rel={"error", "route", "pools", "dial", "mes", "default", "open", "census", "badop"},
-                    quick=dict(VERIF_N="700", VERIF_MAXOPS="10", VERIF_LIVE="20", VERIF_FLAP="60", VERIF_CONC="60", VERIF_READY="40"),
-                    thorough=dict(VERIF_N="30000", VERIF_MAXOPS="16", VERIF_LIVE="25", VERIF_FLAP="1500", VERIF_CONC="1500", VERIF_READY="1000"),
+                    quick=dict(VERIF_N="700", VERIF_MAXOPS="10", VERIF_LIVE="20", VERIF_FLAP="60", VERIF_CONC="60", VERIF_READY="40", VERIF_TIMED="60"),
+                    thorough=dict(VERIF_N="30000", VERIF_MAXOPS="16", VERIF_LIVE="25", VERIF_FLAP="1500", VERIF_CONC="1500", VERIF_READY="1000", VERIF_TIMED="1500", VERIF_TMAXOPS="20"),
                     nontrivial=gme_nontrivial_c16,
                     rule=GEN + "non-trivial = the history contains a rejected construction/update or a Close"),
     }
 
+
+    def extra_overlay(self, scratch):
+        """adds harness/gme_me/*.go to package multiendpoint (exports a hook to replace its clock and timers)"""
+        import os, glob
+        repl = {}
+        for f in glob.glob(os.path.join(engines.VERIF, "harness", "gme_me", "*.go")):
+            repl[os.path.join(engines.C.REPO, "grpcgcp", "multiendpoint", os.path.basename(f))] = f
+        return repl
 
     def build_driver(self, force=False):
         # the driver also links engine B's extracted model: rebuild when coq/ME changes too
@@ -126,10 +141,18 @@ _COMMON = [
     "MultiEndpoint and endpoint names are opaque strings (numbered); a Go map is an association list with distinct keys "
     "(options with duplicate names cannot be written in Go and are excluded: error code 4 in the model)",
     "every named MultiEndpoint is engine B's model (ME.Model, theorems of C13/C14 reused: Inv, step_ok, Inv_cur_member); "
-    "the theorems hold for every RecoveryTimeout/SwitchingDelay and include the timer events of every MultiEndpoint (GTick), "
-    "but the harness only runs RecoveryTimeout = SwitchingDelay = 0 (the timers of package multiendpoint are unexported "
-    "variables of another package and cannot be replaced from package grpcgcp), so timer behaviour inside GCPMultiEndpoint "
-    "rests on engine B's correspondence alone",
+    "the theorems hold for every RecoveryTimeout/SwitchingDelay and include the timer events of every MultiEndpoint (GTick). "
+    "The harness exercises them in TIMED histories: the unexported timeNow/timeAfterFunc of package multiendpoint are "
+    "replaced through an exported hook added to that package by the overlay (harness/gme_me/zz_verif_clock.go, trusted); "
+    "one virtual clock drives all MultiEndpoints (the model keeps one clock per MultiEndpoint, advanced together; a "
+    "MultiEndpoint created later starts at 0, only differences of times matter)",
+    "timed histories are generated under a policy that makes them deterministic (not proved, argued in the harness): "
+    "connection attempts to down endpoints hang (no background state changes of pools); while a delayed switch is pending "
+    "only clock/timer operations are issued (each availability report re-runs maybeUpdateCurrent and would schedule one "
+    "more switch timer, and the number of reports a monitor makes for one outage is not fixed); updates never carry new "
+    "information in the status-sync loop (no reordering of kept endpoints, only down endpoints are added) and never fail - "
+    "otherwise Go's map iteration order in that loop changes the number of timers; UB/UC/UR and dial failures are not used "
+    "in timed histories. A timer whose MultiEndpoint cannot be determined makes the harness fail (none observed)",
     "map iteration order: the order of dials is read from the dial log (oracle); the order of the status-sync loop and of "
     "the MultiEndpoint loop is fixed in the model - proved irrelevant for the endpoint statuses (update_status_synced holds "
     "for the model's order and the statuses it establishes do not depend on it); for Current() with zero delays the "
